@@ -207,8 +207,33 @@ Definition terminated_with_allocs (pre : ostate) (st : ostep) : bool :=
                     negb (existsb (fun b => (ap_id b =? ap_id a) && match ap_allocs b with [] => false | _ => true end) (s_completed pre)))
           (s_completed (st_obs st)).
 
+(* 5: while the real half of a placeholder swap is bound on ANOTHER node than its placeholder and the swap is not
+      confirmed yet (the real ask is on that node but not in the application's allocation list), the application is
+      removed, all its allocations are released (empty key) or the shim releases that real ask: every removal path
+      walks the application's allocation list only, so the real allocation stays on the other node for ever. *)
+Definition xnode_inflight_reals (a : oapp) : list oalloc :=
+  filter (fun x => is_inflight_real_req a x &&
+                   match find_alloc (ap_allocs a) (oa_release x) with
+                   | Some ph => negb (oa_node ph =? oa_node x)
+                   | None => true end) (ap_requests a).
+
+Definition xnode_removal_trigger (pre : ostate) (st : ostep) : bool :=
+  match st_op st with
+  | OpAppRemove id =>
+      match find_app pre id with Some a => match xnode_inflight_reals a with [] => false | _ => true end | None => false end
+  | OpRelease app key ttype =>
+      match find_app pre app with
+      | Some a =>
+          if key =? 0 then match xnode_inflight_reals a with [] => false | _ => true end
+          else negb (ttype =? TT_PlaceholderReplaced) && existsb (fun x => oa_key x =? key) (xnode_inflight_reals a)
+      | None => false
+      end
+  | _ => false
+  end.
+
 Definition known_trigger (pre : ostate) (st : ostep) : option N :=
   if terminated_with_allocs pre st then Some 4 else
+  if xnode_removal_trigger pre st then Some 5 else
   match st_op st with
   | OpAlloc r =>
       match find_app pre (rq_app r) with
